@@ -10,6 +10,10 @@
 (*   mutex          n routines x m increments inside with-mutex-lock left  *)
 (*                  normally, by an error and by return-from: the counter  *)
 (*                  is n*m and the mutex is free                           *)
+(*   mutexnest      the main routine holds the mutex while it starts n     *)
+(*                  routines and makes a closure, all of which take the    *)
+(*                  same mutex around a read - wait - write of the counter:*)
+(*                  no update is lost (the counter is 1 + 2 n m)           *)
 (*   syncinst       n routines x m increments of their own slot of one     *)
 (*                  synchronized instance: every slot is m                 *)
 (*   gencache       a call held at the yield point of the generic function   *)
@@ -30,6 +34,7 @@ ChanOK(e) == /\ Len(e.got) = e.n
 Judge(e) == IF e.st # "ok" THEN "status"
             ELSE CASE e.kind \in {"chan", "select"} -> IF ChanOK(e) THEN "" ELSE "items"
                    [] e.kind = "mutex" -> IF e.x = e.n * e.m THEN "" ELSE "counter"
+                   [] e.kind = "mutexnest" -> IF e.x = 1 + 2 * e.n * e.m THEN "" ELSE "counter"
                    [] e.kind = "syncinst" -> IF Len(e.slots) = e.n /\ \A k \in 1..e.n : e.slots[k] = e.m THEN "" ELSE "slots"
                    \* GenCache.tla: the held call runs the old or the new method, and once both have returned the new method is the
                    \* one called (whether the definition has to wait for the call is the implementation's choice: not judged)
